@@ -6,7 +6,7 @@ from hypothesis import strategies as st
 
 from ..core import Clause, Enum, Violation, guard, ulp
 from .. import oracles as O
-from ..harness import seed_all, Patched
+from ..harness import seed_all, Patched, pname, NAME_STYLES
 from .c08 import SeededRS
 
 PROPERTY = "C12"
@@ -44,7 +44,23 @@ def cases(draw, kind):
         d = draw(st.integers(1, 6))
         N = draw(st.integers(1, 40))
     boxes = [draw(box12()) for _ in range(d)]
-    return {"kind": kind, "boxes": boxes, "N": N, "seed": draw(st.integers(0, 2 ** 31))}
+    extra = {}
+    if kind == "random" and draw(st.integers(0, 2)) == 0:
+        # integer parameters (integer bounds; ranges below zero, above zero and across it)
+        ptype = []
+        for j in range(d):
+            if draw(st.booleans()):
+                lo = draw(st.integers(-20, 15))
+                boxes[j] = [lo, lo + draw(st.integers(1, 12))]
+                ptype.append("integer")
+            else:
+                ptype.append("real")
+        extra["ptype"] = ptype
+    if kind in ("lhs", "halton") and draw(st.integers(0, 3)) == 0:
+        # a declared rounding precision on the parameters does not change what these two designs are
+        extra["prec"] = [draw(st.sampled_from([None, 1e-3, 0.1, 0.25, 0.5])) for _ in range(d)]
+    return dict({"kind": kind, "boxes": boxes, "N": N, "seed": draw(st.integers(0, 2 ** 31)),
+                 "names": draw(st.sampled_from(NAME_STYLES))}, **extra)
 
 
 def _tol(lb, ub):
@@ -56,7 +72,13 @@ def check_sampler(case):
     import artap.operators as ops
     kind, boxes, N = case["kind"], case["boxes"], case["N"]
     d = len(boxes)
-    ps = [{"name": "x%d" % i, "bounds": list(b)} for i, b in enumerate(boxes)]
+    ps = [{"name": pname(i, case.get("names", "x")), "bounds": list(b)} for i, b in enumerate(boxes)]
+    ptype = case.get("ptype") or ["real"] * d
+    for p_, t_, q_ in zip(ps, ptype, case.get("prec") or [None] * d):
+        if t_ != "real":
+            p_["parameter_type"] = t_
+        if q_:
+            p_["precision"] = q_
     seed_all(case["seed"])
     cls = {"lhs": ops.LHSGenerator, "halton": ops.HaltonGenerator, "uniform": ops.UniformGenerator,
            "random": ops.RandomGenerator}[kind]
@@ -64,7 +86,8 @@ def check_sampler(case):
         with guard(kind):
             g = cls(ps)
             g.init(N)
-            vs = [list(map(float, v)) for v in g.generate()]
+            raw = [list(v) for v in g.generate()]
+            vs = [list(map(float, v)) for v in raw]
     exp_rows = N ** d if kind == "uniform" else N
     if len(vs) != exp_rows:
         raise Violation(kind, "row-count", "%s(N=%d, d=%d) returned %d designs, expected %d" % (
@@ -113,12 +136,19 @@ def check_sampler(case):
             raise Violation(kind, "grid-combinations", "k=%d d=%d: combinations missing %r / repeated %r" % (
                 N, d, list((want - got).keys())[:3], [k for k, c in got.items() if c > 1][:3]))
     else:
-        for v in vs:
-            for x, (lb, ub) in zip(v, boxes):
+        for v, rv in zip(vs, raw):
+            for j, (x, (lb, ub)) in enumerate(zip(v, boxes)):
                 t = 1e-12 + 4 * ulp(max(abs(lb), abs(ub)))
+                if ptype[j] == "integer":
+                    t = 0
+                    if isinstance(rv[j], bool) or x != int(x):
+                        raise Violation(kind, "integer-parameter-not-integral", "%r for an integer parameter %r" % (
+                            rv[j], (lb, ub)))
                 if not (lb - t <= x <= ub + t):
-                    raise Violation(kind, "out-of-box", "%r outside %r" % (x, (lb, ub)))
-    return {"nt": nt, "classes": ["d%d" % d, "N>=3" if N >= 3 else "N<3"]}
+                    raise Violation(kind, "out-of-box%s" % (":integer" if ptype[j] == "integer" else ""),
+                                    "%r outside %r" % (x, (lb, ub)))
+    return {"nt": nt, "classes": ["d%d" % d, "N>=3" if N >= 3 else "N<3"] + (["integer-parameters"] if "ptype" in case else [])
+            + (["declared-precision"] if case.get("prec") and any(case["prec"]) else [])}
 
 
 def halton_boundary_items(tier):
